@@ -15,8 +15,10 @@ NOTE = (
 CHECKS = {
     # id: (level text, design ref, extra technique words)
     "C01": ("safety oracle at the instant of every success report over unbounded fault schedules (drop/dup/delay/reorder/"
-            "bit-flip/partition/stall/clock-jump/restart/filestore rejection); independent file comparison", "5 C01", "invariant at report time"),
-    "C02": ("bounded liveness + completion oracle over the full configuration swarm and tape-decided pacing on a perfect link", "5 C02", "quiescence oracle"),
+            "bit-flip/partition/stall/clock-jump/restart/filestore rejection), tape-chosen pacing, optional earlier delivery of the same "
+            "file through the same handlers and filestore; independent file comparison, collision excuse only after a fired bit flip", "5 C01, 12", "invariant at report time"),
+    "C02": ("bounded liveness + completion oracle over the full configuration swarm and tape-decided pacing on a perfect link; a quarter of the "
+            "runs on handlers that already completed a transfer (any mode / closure) and idled beyond every timer interval", "5 C02, 12", "quiescence oracle"),
     "C03": ("bounded liveness after at most K link faults with limits > K, history shell; before the seeded search every K=1 schedule and (thorough: every, quick: every third) K=2 schedule on small files is executed (sweep)", "5 C03, 12", "bounded-liveness oracle; K<=2 schedule sweep + seeded search"),
     "C07": ("sender stream model judged on every emitted PDU in fault-free, bounded-fault and cancel populations", "5 C07", "in-situ invariant vs SenderStream model"),
     "C09": ("independent reference checksums compared in situ on every EOF, completion decision and verify_checksum call; "
